@@ -4,7 +4,7 @@ import ast
 import re
 
 from ..pycfg import CFG, walk_no_nested
-from ..source import AnalysisError, find_function, find_class, first_line, src, functions, enclosing_function, enclosing_class, qualname
+from ..source import atoms, AnalysisError, find_function, find_class, first_line, src, functions, enclosing_function, enclosing_class, qualname
 
 SM = "nemoguardrails/colang/v2_x/runtime/statemachine.py"
 FLOWS = "nemoguardrails/colang/v2_x/runtime/flows.py"
@@ -34,6 +34,9 @@ def run(ctx):
     d_writers(ctx)
     e_drain(ctx)
     f_flow_configs(ctx)
+    f_flow_configs_per_state(ctx)
+    c_cleanup_purges_children(ctx)
+    b_instance_uid_unique(ctx)
     d_index_key_fresh(ctx)
     g_action_refs(ctx)
 
@@ -365,8 +368,18 @@ def e_drain(ctx):
     for flag, lst in (("heads_are_advancing", "advancing_heads"), ("heads_are_merging", "merging_heads")):
         outer = [w for w in loops if re.sub(r"\s", "", src(w.test)) == flag]
         stores = [s for s in walk_no_nested(fn) if isinstance(s, ast.Assign) and isinstance(s.targets[0], ast.Name) and s.targets[0].id == flag]
-        good = all(src(s.value) == "True" or re.sub(r"\s", "", src(s.value)) in ("len(%s)>0" % lst, "bool(%s)" % lst) for s in stores)
-        derived = any(re.sub(r"\s", "", src(s.value)) in ("len(%s)>0" % lst, "bool(%s)" % lst) for s in stores)
+        # the flag is True, "the head list is not empty", or that OR "internal events are pending" (a disjunct can only keep the loop going: more draining, never less)
+        def _work_pending(e):
+            txt = re.sub(r"\s", "", src(e))
+            return txt in ("len(%s)>0" % lst, "bool(%s)" % lst, "len(state.internal_events)>0", "bool(state.internal_events)")
+
+        def _ok_value(v):
+            if src(v) == "True" or _work_pending(v):
+                return True
+            return isinstance(v, ast.BoolOp) and isinstance(v.op, ast.Or) and all(_work_pending(x) for x in v.values) and any(
+                re.sub(r"\s", "", src(x)) in ("len(%s)>0" % lst, "bool(%s)" % lst) for x in v.values)
+        good = all(_ok_value(s.value) for s in stores)
+        derived = any(_ok_value(s.value) and src(s.value) != "True" for s in stores)
         ctx.check("C09.e.drain", SM, "run_to_completion", "loop flag %s" % flag, len(outer) == 1 and good and derived,
                   "`while %s` ends only when `%s` is empty (the flag is assigned True or len(%s) > 0 only)" % (flag, lst, lst), line=fn.lineno)
 
@@ -460,6 +473,85 @@ def f_flow_configs(ctx):
                       "`%s` can overwrite the configuration of an existing flow: running instances keep head positions that index the OLD element list, so heads end up on non-waiting statements and the matching index goes stale" % first_line(st),
                       line=st.lineno)
     ctx.floor("C09.f.flow-config-immutable", RT, "run-time stores into state.flow_configs", n, 1)
+
+
+RT2 = "nemoguardrails/colang/v2_x/runtime/runtime.py"
+
+
+def f_flow_configs_per_state(ctx):
+    """`every flow referenced by a running flow still exists`: AddFlowsAction / RemoveFlowsAction edit `state.flow_configs`.  If a new conversation state is created with the
+    runtime's own table (`flow_configs=self.flow_configs`) all conversations share ONE table: a flow removed in conversation A vanishes under a running instance of
+    conversation B, whose waiting head stays in the index and raises KeyError on every later event (F108).  A new State gets a copy of the table."""
+    t = ctx.tree.ast(RT2)
+    cons = [c for c in ast.walk(t) if isinstance(c, ast.Call) and src(c.func) == "State" and any(k.arg == "flow_configs" for k in c.keywords)]
+    ctx.floor("C09.f.flow-configs-per-state", RT2, "State(...) constructions with a flow_configs table", len(cons), 1)
+    for c in cons:
+        v = [k.value for k in c.keywords if k.arg == "flow_configs"][0]
+        shared = isinstance(v, ast.Attribute) and isinstance(v.value, ast.Name) and v.value.id == "self"
+        fn = enclosing_function(c)
+        ctx.check("C09.f.flow-configs-per-state", RT2, qualname(fn) if fn is not None else "<module>", "flow_configs of a new State", not shared,
+                  "a new conversation state gets its own copy of the flow configuration table" if not shared else
+                  "`flow_configs=%s`: every conversation state aliases the runtime's table, so flows added/removed at run time in one conversation change the program of all others" % src(v),
+                  line=c.lineno)
+
+
+def c_cleanup_purges_children(ctx):
+    """An activated flow is entered in the child list of EVERY flow that activates it, but knows only one parent.  When the clean-up discards a finished instance it has to take
+    its uid out of all child lists (or every walk over child_flow_uids has to tolerate unknown uids): otherwise a later deactivate/abort of another activator indexes
+    `state.flow_states[<discarded uid>]` and raises KeyError - the activator is never stopped (F109)."""
+    t = ctx.tree.ast(SM)
+    cu = find_function(t, "_clean_up_state")
+    if cu is None:
+        raise AnalysisError("_clean_up_state not found", anchor=SM + "::_clean_up_state")
+    dels = [d for d in ast.walk(cu) if isinstance(d, ast.Delete) and any("flow_states[" in src(tg) for tg in d.targets)]
+    ctx.floor("C09.c.cleanup-purges-children", SM, "deletion of discarded flow instances", len(dels), 1)
+    purges = [c for c in ast.walk(cu) if isinstance(c, ast.Call) and isinstance(c.func, ast.Attribute) and c.func.attr in ("remove", "discard") and "child_flow_uids" in src(c.func.value)]
+    purges += [a for a in ast.walk(cu) if isinstance(a, ast.Assign) and "child_flow_uids" in src(a.targets[0])]
+    def _all_flows(l):
+        its = [l.iter] if isinstance(l, ast.For) else [g.iter for g in l.generators]
+        return any(re.sub(r"\s", "", src(i)) in ("state.flow_states.values()", "state.flow_states.items()", "list(state.flow_states.values())") for i in its)
+    over_all = any(isinstance(l, (ast.For, ast.ListComp, ast.GeneratorExp)) and _all_flows(l) and any(p_ in list(ast.walk(l)) for p_ in purges) for l in ast.walk(cu))
+    # alternative: all walks over child_flow_uids that index flow_states are guarded
+    unguarded = []
+    for fn in functions(t):
+        for l in [x for x in ast.walk(fn) if isinstance(x, ast.For) and "child_flow_uids" in src(x.iter)]:
+            v = src(l.target)
+            for sub in ast.walk(l):
+                if isinstance(sub, ast.Subscript) and src(sub.value).endswith("flow_states") and src(sub.slice) == v and isinstance(sub.ctx, ast.Load):
+                    guarded = any(isinstance(p_, ast.If) and any(isinstance(a_, ast.Compare) and isinstance(a_.ops[0], (ast.In, ast.NotIn)) and src(a_.left) == v for a_ in atoms(p_.test))
+                                  for p_ in list(_anc(sub, l)) + [x for x in l.body if isinstance(x, ast.If)])
+                    if not guarded:
+                        unguarded.append((fn.name, sub))
+    ok = over_all or not unguarded
+    ctx.check("C09.c.cleanup-purges-children", SM, "_clean_up_state", "discarded instances leave every child list", ok,
+              "the clean-up removes the uid of a discarded instance from the child list of every remaining flow" if over_all else (
+                  "every walk over child_flow_uids tolerates unknown uids" if ok else
+                  "the clean-up deletes instances but leaves their uid in the child lists of other activators, and %d walk(s) over child_flow_uids index state.flow_states unguarded "
+                  "(first: %s): KeyError when such an activator is deactivated or aborted after the idle time" % (len(unguarded), unguarded[0][0])),
+              line=(dels[0].lineno if dels else cu.lineno))
+
+
+def b_instance_uid_unique(ctx):
+    """A StartFlow event may name the uid of the new instance (`send StartFlow(flow_id=..., flow_instance_uid=...)`, the documented expanded form of `start`).  Registering an
+    instance under a uid that a RUNNING instance already has overwrites that instance: its waiting head stays in the index, pointing at a head the new instance does not have
+    (F112).  Either the dispatch ignores such a start or add_new_flow_instance refuses it."""
+    t = ctx.tree.ast(SM)
+    add = find_function(t, "add_new_flow_instance")
+    disp = find_function(t, "_process_internal_events_without_default_matchers")
+    if add is None or disp is None:
+        raise AnalysisError("add_new_flow_instance / dispatch not found", anchor=SM + "::add_new_flow_instance")
+    def tests_uid(fn):
+        return any(isinstance(a_, ast.Compare) and len(a_.ops) == 1 and isinstance(a_.ops[0], (ast.In, ast.NotIn)) and src(a_.comparators[0]).endswith("flow_states")
+                   and ("uid" in src(a_.left)) for i in ast.walk(fn) if isinstance(i, ast.If) for a_ in atoms(i.test)) or \
+            any(isinstance(c, ast.Call) and isinstance(c.func, ast.Attribute) and c.func.attr == "get" and src(c.func.value).endswith("flow_states") and "flow_instance_uid" in src(c)
+                and "source" not in src(c) for c in ast.walk(fn))
+    start_branches = [i for i in ast.walk(disp) if isinstance(i, ast.If) and "START_FLOW" in src(i.test)]
+    ok = tests_uid(add) or any(isinstance(j, ast.If) and "flow_instance_uid" in src(j.test) and "flow_states" in src(j.test) and "source_flow_instance_uid" not in src(j.test)
+                               for i in start_branches for st in i.body for j in ast.walk(st))
+    ctx.check("C09.b.instance-uid-unique", SM, "add_new_flow_instance", "a uid in use is not registered again", ok,
+              "a start that names the uid of an instance that has not ended is refused" if ok else
+              "state.flow_states[uid] is overwritten without looking whether a running instance has that uid: the old instance's waiting head stays in event_matching_heads and every "
+              "later event of that name raises KeyError (no flow can process it any more)", line=add.lineno)
 
 
 def g_action_refs(ctx):
